@@ -196,7 +196,7 @@ def _nice_model(eng, phi_neg, inputs):
     if not atoms:
         return None
     s = eng.solver
-    for scale in (1, 2, 4):
+    for scale in (1, 2, 4, 1000, 10 ** 6):
         s.push()
         try:
             for t in atoms:
@@ -360,6 +360,7 @@ def run_task(task):
         except _Stop:
             out['stopped'] = True
         out['stats'] = eng.stats
+        out['cross_errors'] = getattr(eng, 'cross_errors', [])
         out['executed'] = sorted(tw.executed)
     except Inconclusive as e:
         out['error'] = "INCONCLUSIVE %s: %s" % (type(e).__name__, e)
@@ -642,7 +643,11 @@ def run_check(modname, pid, tier, meta):
             queries=dict(feasibility=stats.get('feas_queries', 0), property=stats.get('prop_queries', 0),
                          total=stats.get('solver_calls', 0), folded_by_facts=stats.get('folded', 0),
                          forced_decisions=stats.get('forced', 0), new_decisions=stats.get('decisions', 0),
-                         replayed_decisions=stats.get('replayed', 0), max_decision_depth=stats.get('max_depth', 0)),
+                         replayed_decisions=stats.get('replayed', 0), max_decision_depth=stats.get('max_depth', 0),
+                         cross_solver=dict(solver='cvc5 (python API) on SMT-LIB2 exported by z3', sampled=stats.get('cross_checked', 0),
+                                           agreed_unsat=stats.get('cross_agree', 0), unknown=stats.get('cross_unknown', 0),
+                                           errors=stats.get('cross_error', 0), error_examples=sorted(set(x for r in results for x in r.get('cross_errors', [])))[:3], seconds=round(stats.get('cross_s', 0.0), 2),
+                                           rule='per cube: every 37th discharged property query (offset VERIF_SEED), at most VERIF_CVC5_PER_CUBE=2')),
             solver_s=round(stats.get('solver_s', 0.0), 3), solver='z3 ' + z3.get_version_string(),
             paths=paths, infeasible_paths=stats.get('infeasible_paths', 0),
             violations_confirmed=len(confirmed), known_findings=sorted(printed),
@@ -652,6 +657,19 @@ def run_check(modname, pid, tier, meta):
         assumptions=meta.get('assumptions', []),
         wall_s=round(wall, 2), violations=len(confirmed),
     )
+    # second engine (thorough tier only): a harness may provide audit() -> dict(engine, result, detail, disagreement)
+    audit = getattr(mod, 'audit', None)
+    if audit is not None and tier == 'thorough' and not os.environ.get('VERIF_NO_AUDIT'):
+        try:
+            ares = audit()
+        except BaseException as ex:
+            ares = dict(engine='?', result='audit crashed: %s: %s' % (type(ex).__name__, ex), disagreement=False)
+        ev['coverage']['audit'] = ares
+        print("AUDIT property=%s %s: %s" % (pid, ares.get('engine'), ares.get('result')))
+        if ares.get('disagreement') and exit_code == 0:
+            exit_code = 2
+            print("INCONCLUSIVE property=%s the auditing engine reports a counterexample the primary engine did not find: %s" % (pid, ares.get('detail')))
+            ev['coverage']['exhaustive'] = False
     if paths == 0:
         ev['coverage']['states'] = 1
         ev['coverage']['transitions'] = 1
